@@ -405,3 +405,96 @@ def c07_reach(ht: int, hsrc: int, hdst: int, hdh: int, nbytes: int, p1: int, p2:
     post: _
     """
     return reached(oracle("c07", ht, hsrc, hdst, hdh, nbytes, p1, p2, p3, p4, p5, sid, id1, id2, t0, off, u1, u2))
+
+
+# ---- control payload `name` made of arbitrary bytes (C03) ----
+def name_step(b):
+    ctrl = sh("ctrl")
+    mm, mods = W.build(2)
+    S, A = mods
+    A.connected = True
+    A.mod_id = 150
+    W.subscribe(mm, A, ALL)
+    if ctrl == "CLIENT_SET_NAME":
+        S.connected = True
+        S.mod_id = 20
+    mm.wlist = [S.conn, A.conn]
+    raw = b + b"\x00" * (32 - len(b)) if W.SHADOW else b
+    if ctrl == "CONNECT_V2":
+        W.set_incoming(mm, dict(msg_type=cd.MT_CONNECT_V2, num_data_bytes=44), ("MDF_CONNECT_V2", dict(mod_id=20, name=raw)))
+    else:
+        W.set_incoming(mm, dict(msg_type=cd.MT_CLIENT_SET_NAME, src_mod_id=20, num_data_bytes=32), ("MDF_CLIENT_SET_NAME", dict(name=raw)))
+    w = World()
+    w.mm, w.S, w.O = mm, S, [A]
+    phase, exc = step(w)
+    if exc is not None:
+        return False, "%s raised %s for name bytes" % (phase, type(exc).__name__)
+    alive = W._contains(list(mm.modules.values()), S)
+    if alive == S.conn.closed:
+        return False, "tables do not match open connections"
+    if not W._contains(list(mm.modules.values()), A) or not A.conn.whole_frames():
+        return False, "bystander disturbed"
+    return True, ""
+
+
+def c03_name(b: bytes) -> bool:
+    """
+    pre: len(b) <= 3 and all(x != 0 for x in b)
+    post: _
+    """
+    return verdict(name_step(b))
+
+
+def c03_name_reach(b: bytes) -> bool:
+    """
+    pre: len(b) <= 3 and all(x != 0 for x in b)
+    post: _
+    """
+    return reached(name_step(b))
+
+
+# ---- every dynamic id in use (C03 / C06) ----
+def dyn_full(off, hole):
+    """100 live modules hold the dynamic ids 100..199, except `hole` (0: none free). A client asks for id 0."""
+    mm, mods = W.build(1)
+    S = mods[0]
+    with W.NoTracing():
+        for i in range(100):
+            c = W.FakeConn(100 + i)
+            mm.modules[c] = M.Module(uid=100 + i, conn=c, address=("h", 1), header_cls=mm.header_cls, connected=True, mod_id=100 + i)
+    if hole:
+        for m in mm.modules.values():
+            if m.mod_id == hole:
+                m.mod_id = 7
+    mm.wlist = [S.conn]
+    mm.next_dynamic_mod_id_offset = off
+    W.set_incoming(mm, dict(msg_type=cd.MT_CONNECT, src_mod_id=0, num_data_bytes=4), ("MDF_CONNECT", dict()))
+    w = World()
+    w.mm, w.S, w.O = mm, S, []
+    phase, exc = step(w)
+    if exc is not None:
+        return False, "%s raised %s when every dynamic id is in use" % (phase, type(exc).__name__)
+    alive = W._contains(list(mm.modules.values()), S)
+    if hole:
+        if not (alive and S.connected and S.mod_id == hole and len(acks(S)) == 1):
+            return False, "the one free dynamic id was not assigned"
+    else:
+        if alive or not S.conn.closed or len(S.conn.calls) != 0:
+            return False, "request must be refused and closed when no dynamic id is free"
+    return True, ""
+
+
+def c03_dyn(hole: int) -> bool:
+    """
+    pre: hole == 0 or 100 <= hole <= 199
+    post: _
+    """
+    return verdict(dyn_full(sh("off", 0), hole))
+
+
+def c03_dyn_reach(hole: int) -> bool:
+    """
+    pre: hole == 0 or 100 <= hole <= 199
+    post: _
+    """
+    return reached(dyn_full(sh("off", 0), hole))
